@@ -1,5 +1,5 @@
 (* C08 — Resizing a region equals slicing its spliced sequence. *)
-From GTS Require Import Base Arith Loc Region Seq RegionProofs ResizeProofs ModParse ModRT.
+From GTS Require Import Base Arith Loc LocParse Region Seq Select Locator RegionProofs ResizeProofs ModParse ModRT LocatorProofs.
 Open Scope Z_scope.
 
 (* resizing commutes with strand mirroring *)
@@ -77,6 +77,48 @@ Example C08_modifier_example :
   mod_show (MHeadTail (-12) 0) = [94; 45; 49; 50; 46; 46; 36] /\
   mod_ok (MHeadTail (-12) 0) /\ as_modifier [94; 45; 49; 50; 46; 46; 36] = Ok (MHeadTail (-12) 0).
 Proof. split; [reflexivity|]. split; [vm_compute; repeat split; discriminate|vm_compute; reflexivity]. Qed.
+
+(* locators (model of AsLocator, locator.go; regexp a parameter as in C19).
+   X@M denotes exactly the regions of X each resized by M, in the same order;
+   @M every feature of the table; without '@' a string is read as a modifier
+   (the whole sequence, resized), else as a point/range/complement location
+   (itself), else as a selector (the matching features in table order); the
+   printed form of every modifier is such a whole-sequence locator. *)
+Theorem C08_locator_compose : forall re_ok re_match x m seq, no_at x -> x <> [] ->
+  locate_string re_ok re_match (x ++ 64 :: m) seq =
+  (lx <- as_locator_plain re_ok x ;; m' <- as_modifier m ;;
+   rr <- locate_with re_match lx seq ;; omapM (fun r => region_resize r m') rr).
+Proof. exact locator_compose. Qed.
+Print Assumptions C08_locator_compose.
+
+Theorem C08_locator_all_features : forall re_ok re_match m seq,
+  locate_string re_ok re_match (64 :: m) seq =
+  (m' <- as_modifier m ;; omapM (fun r => region_resize r m') (map (fun g => loc_region (floc g)) (feats seq))).
+Proof. exact locator_all. Qed.
+
+Theorem C08_locator_precedence : forall re_ok re_match s seq, no_at s ->
+  locate_string re_ok re_match s seq =
+  match as_modifier s with
+  | Ok m => r <- region_resize (Seg 0 (zlen (residues seq))) m ;; Ok [r]
+  | Panic => Panic | OutOfFuel => OutOfFuel
+  | Err _ =>
+    match try_location s with
+    | Ok l => Ok [loc_region l]
+    | Panic => Panic | OutOfFuel => OutOfFuel
+    | Err _ =>
+      match selector re_ok s with
+      | Ok f => Ok (map (fun g => loc_region (floc g)) (feature_filter re_match f (feats seq)))
+      | Panic => Panic | OutOfFuel => OutOfFuel
+      | Err _ => Err EOther
+      end
+    end
+  end.
+Proof. exact locator_precedence. Qed.
+
+Theorem C08_printed_modifier_is_whole_sequence_locator : forall re_ok re_match m seq, mod_ok m ->
+  locate_string re_ok re_match (mod_show m) seq = (r <- region_resize (Seg 0 (zlen (residues seq))) m ;; Ok [r]).
+Proof. exact locator_printed_modifier. Qed.
+Print Assumptions C08_printed_modifier_is_whole_sequence_locator.
 
 Example C08_example :
   region_resize (Regs [Seg 3 6; Seg 9 10; Seg 13 17]) (MHeadHead 3 7)
